@@ -76,7 +76,7 @@ def run(tier: str) -> int:
     b = families.C01_BOUNDS[tier]
     return gc.run_model_check(
         C01(), specs(tier), tier, "exploration",
-        bounds=[{"top": [{"n": n, "modifiers": list(m), "trivia": list(t)} for n, m, t in b["top"]], "contexts": {"hole_size": b["ctx"][0], "trivia": list(b["ctx"][1])},
+        bounds=[{"top": [{"n": n, "modifiers": list(m), "trivia": list(t)} for n, m, t in b["top"]], "contexts": [{"hole_size": h, "trivia": list(t)} for h, t in b["ctx"]],
                  "max_inputs_per_rule": b["max_inputs"], "start_positions": "0, plus every k<=len on a slice with L<=3", "name_grammars": [g[0] for g in NAME_GRAMMARS]}],
         rule=families.c01_rule_text() + "; (c) grammars whose rule names collide with generated identifiers. Oracle (relational, no model): generate() compiles and is byte-identical when called twice; "
              "for every (rule, input, start position) the generated module returns exactly the interpreter's tree incl. tags, or both raise PestParsingError with equal furthest_pos (IU vs GU, IO vs GO). "
